@@ -138,7 +138,7 @@ def reused_header(c, rng):
         elif what == "setblock":
             se.setblock(rs(rng, 2).replace("P", "Q").replace("p", "q"), rs(rng, rng.randrange(0, 30)))
         elif what == "delblock":
-            ks = list(se.kb.header.blocks._blocks)
+            ks = list(se.kb.header.blocks)
             if ks:
                 se.delblock(rng.choice(ks))
         elif what == "str":
